@@ -38,10 +38,6 @@ OUT_FIXED = {'Out': 1, 'ReplaceOut': 1, 'OffsetOut': 1, 'LocalOut': 0, 'XOut': 2
 # seeding): the statement's list, by class name
 WIDTH_FIRST = ('LocalBuf', 'SetBuf', 'ClearBuf', 'FFT', 'IFFT', 'RandSeed',
                'RandID')
-# classes whose instances may not be dropped even when nothing references them
-SIDE_EFFECT = WIDTH_FIRST + ('Out', 'LFNoise0', 'PV_MagAbove', 'PV_MagSmear',
-                             'PV_MagSquared')
-
 
 def is_width_first(name):
     return name in WIDTH_FIRST or name.startswith('PV_')
@@ -53,6 +49,7 @@ def _init_sc3():
     silence_sc3_logging()
     import sc3
     sc3.init('nrt')
+    gg.install_bytesio_guard()
 
 
 # ---------------------------------------------------------------------------
@@ -391,6 +388,17 @@ def check_bytes(data, name, params, log=None):
                              'control %s (%s) is served by a rate-%d unit' % (
                                  nm, rate, slot_rate[s]),
                              observed=slot_rate[s], expected=want_rate[rate])
+    # local buffers: MaxLocalBufs announces the number of LocalBuf units
+    nlb = sum(1 for u in d.ugens if u.name == 'LocalBuf')
+    mlb = [u for u in d.ugens if u.name == 'MaxLocalBufs']
+    if nlb or mlb:
+        val = None
+        if len(mlb) == 1 and len(mlb[0].inputs) == 1 and mlb[0].inputs[0][0] == -1:
+            val = d.constants[mlb[0].inputs[0][1]]
+        if val != float(nlb):
+            fail('C02.consistent', 'C02.consistent:max-local-bufs',
+                 '%d LocalBuf units but MaxLocalBufs says %r (%d MaxLocalBufs '
+                 'units)' % (nlb, val, len(mlb)), observed=val, expected=nlb)
     # source units (structural programs)
     if log is not None and 'units' in log:
         if 'expansion_shape' in log:
@@ -406,10 +414,11 @@ def check_bytes(data, name, params, log=None):
                 a, b = u.inputs[e['tagpos']]
                 if a == -1 and d.constants[b] == e['tag']:
                     ms.append(u)
-            if len(ms) > 1 or (not ms and e['cls'] in SIDE_EFFECT):
+            # (whether a unit may be absent is C01's clause, not judged here)
+            if len(ms) > 1:
                 fail('C02.consistent', 'C02.consistent:unit-count',
                      '%s tagged %s occurs %d times' % (e['cls'], e['tag'], len(ms)),
-                     observed=len(ms), expected=1)
+                     observed=len(ms), expected='at most 1')
             if len(ms) == 1:
                 u = ms[0]
                 where[e['order']] = u.index
@@ -570,12 +579,21 @@ def check_reader(data, d, sd, params, log=None):
                          how, what), observed=got, expected=exp)
     if log is not None and 'io' in log:
         # against the source: the same multiset of bus units
+        # (a bus unit missing from the file is C01's clause; here: no bus
+        # unit the source does not have, none altered)
         exp = sorted((c, r, n, str(s)) for c, r, n, s in log['io'])
         got = sorted((c, r, n, str(s)) for c, r, n, s in exp_ins + exp_outs)
-        if exp != got:
+        rest = list(exp)
+        extra = []
+        for g in got:
+            if g in rest:
+                rest.remove(g)
+            else:
+                extra.append(g)
+        if extra:
             fail('C02.consistent', 'C02.consistent:io-units',
-                 'In/Out units of the file vs. the source', observed=got,
-                 expected=exp)
+                 'In/Out units of the file that the source does not create',
+                 observed=extra, expected=exp)
     return out
 
 
